@@ -75,7 +75,7 @@ def gen(args):
             continue
         lamfull = full["lam"]
         members = [("feature", "full", route, None), ("sample", "full", route, None), ("sample", "randomized", route, None),
-                   ("feature", "randomized", route, None)]
+                   ("feature", "randomized", route, None), ("auto", "auto", route, None)]        # the defaults resolve to one of the routes
         if k < kmax:
             members += [("feature", "arpack", route, None), ("sample", "arpack", route, None)]
         members += [("sample", "full", "pre", "W"), ("feature", "full", "pre", None), ("sample", "full", "pre", None)]
